@@ -355,7 +355,16 @@ type raceReport struct{ site, text string }
 // collectRaceReports reads the race detector's log files.  A report is attributed to the library
 // when the code performing one of the two conflicting accesses (the top frame of that access) is
 // library code; reports whose accesses are both in the harness are counted separately.
-func collectRaceReports(dir string) []raceReport {
+func collectRaceReports(dir string) []raceReport { return collectRaceReportsMode(dir, false) }
+
+// strict: the code performing the access itself (first frame outside the Go runtime / sync / atomic)
+// must be library code; used where third-party code with goroutines of its own (real graphsync,
+// libp2p) runs underneath the library
+func collectRaceReportsMode(dir string, strict bool) []raceReport {
+	repoPrefix := "/repo/"
+	if v := os.Getenv("VERIF_REPO_PREFIX"); v != "" {
+		repoPrefix = v
+	}
 	files, _ := filepath.Glob(filepath.Join(dir, "race.*"))
 	seen := map[string]bool{}
 	var out []raceReport
@@ -377,11 +386,13 @@ func collectRaceReports(dir string) []raceReport {
 					// top frame: function line, then file line; skip runtime / sync frames
 					for j := i + 1; j+1 < len(lines) && strings.TrimSpace(lines[j]) != ""; j += 2 {
 						file := strings.TrimSpace(lines[j+1])
-						if strings.HasPrefix(file, "/usr/") || strings.Contains(file, "/go/src/") || strings.Contains(file, "/pkg/mod/") && !strings.Contains(file, "go-data-transfer") {
+						std := strings.HasPrefix(file, "/usr/") || strings.Contains(file, "/go/src/") || strings.Contains(file, "/golang.org/toolchain")
+						third := strings.Contains(file, "/pkg/mod/") && !strings.Contains(file, "go-data-transfer") && !std
+						if std || (third && !strict) {
 							continue
 						}
-						if strings.HasPrefix(file, "/repo/") && !strings.Contains(file, "_test.go") && !strings.Contains(file, "/testutil/") && !strings.Contains(file, "/testharness/") && site == "" {
-							site = strings.SplitN(strings.TrimPrefix(file, "/repo/"), " ", 2)[0]
+						if strings.HasPrefix(file, repoPrefix) && !strings.Contains(file, "_test.go") && !strings.Contains(file, "/testutil/") && !strings.Contains(file, "/testharness/") && site == "" {
+							site = strings.SplitN(strings.TrimPrefix(file, repoPrefix), " ", 2)[0]
 						}
 						break
 					}
